@@ -254,7 +254,11 @@ def _load_helper_obasis(lit: LineIterator) -> MolecularBasis:
     """Load the orbital basis."""
     shells = []
     while True:
-        line = next(lit)
+        try:
+            line = next(lit)
+        except StopIteration:
+            # The basis set may be the last section of the file.
+            break
         words = line.split()
         # Normally a new atom section begins with one or two integers,
         # of which the second is zero if present. If not, we are done
